@@ -18,7 +18,7 @@ EXPLANATION = (
     "routine decrements it. (BREAK) the separator decision is compared with its specification as a 16-row truth table "
     "and is consulted before every match / before-context line. (ORDERING/WINDOW) after-context, then before-context, "
     "then the match; before-context starts at the last visited line. Which lines fall inside windows and true line "
-    "numbers are arithmetic over the input and are not decided. (STOPNM) under --stop-on-nonmatch, once a line matched the fast path is neither admitted nor continued and the slow path returns stop at the first non-matching line; has_matched is recorded before every delivered match. (LIVE) dual of the stop discipline: assuming every callee and the sink say keep going (whole-function propagation with a call model), a routine returns its stop value only on a path guarded by a listed reason.")
+    "numbers are arithmetic over the input and are not decided. (STOPNM) under --stop-on-nonmatch, once a line matched the fast path is neither admitted nor continued and the slow path returns stop at the first non-matching line; has_matched is recorded before every delivered match; the inverted fast scanner, which steps over the line ending a run of matches, consults stop_on_nonmatch there or is not admitted under it. (LIVE) dual of the stop discipline: assuming every callee and the sink say keep going (whole-function propagation with a call model), a routine returns its stop value only on a path guarded by a listed reason.")
 NOT_DECIDED = ["which lines fall inside context windows", "true line numbers and byte offsets (arithmetic over the input)"]
 
 CORE = "grep_searcher::searcher::core::Core"
@@ -45,6 +45,45 @@ def siblings(facts):
         if cs:
             out.append((f, cs[0]))
     return sorted(out, key=lambda t: t[0].path)
+
+
+def stopnm_invert_rule(ctx, r):
+    """The inverted fast scanner consumes the line that ends a run of (inverted) matches without looking at it. That
+    line is a non-match, so under stop_on_nonmatch it must end the search; since the run sets has_matched inside the
+    same call, the loop-top test of match_by_line_fast comes too late. Necessary condition: either the routine itself
+    consults stop_on_nonmatch, or the inverted scanner is not admitted under stop_on_nonmatch at all."""
+    facts = ctx.facts
+    f = facts.fn(CORE + "::match_by_line_fast_invert")
+    eb = ExprBuilder(f)
+    own = cond_switches(f, lambda e: W.field_of(e, SCFG, "stop_on_nonmatch") or mentions_field(e, SCFG, "stop_on_nonmatch"), eb)
+    skips = [c for c in f.calls_to(CORE + "::set_pos") if mentions_call(eb.operand(c.args[1]), CORE + "::find_by_line_fast")]
+    if not skips:
+        r.bad("fast-invert|skip", "anchor-missing: match_by_line_fast_invert no longer advances past the line found by "
+              "find_by_line_fast", fn=f)
+        return
+    excluded = False
+    for g in (facts.fn(CORE + "::match_by_line_fast"), facts.fn(CORE + "::is_line_by_line_fast")):
+        ebg = ExprBuilder(g)
+        inv = cond_switches(g, lambda e: W.field_of(e, SCFG, "invert_match"), ebg)
+        snm = cond_switches(g, lambda e: W.field_of(e, SCFG, "stop_on_nonmatch"), ebg)
+        hm = cond_switches(g, lambda e: W.field_of(e, CORE, "has_matched"), ebg)
+        calls = [c.bb for c in g.calls_to(CORE + "::match_by_line_fast_invert")]
+        trues = [bb for bb, j, st in g.stmts() if st["k"] == "assign" and st["place"]["l"] == 0 and not st["place"]["p"] and
+                 (op_const(st["rv"].get("a", {})) or {}).get("val") == 1]
+        targets = calls if calls else (trues if g.name == "is_line_by_line_fast" else [])
+        if inv and snm and targets:
+            # force stop_on_nonmatch ∧ invert_match true, has_matched false: is the inverted scanner still reached?
+            rem = {s_[2] for s_ in snm} | {s_[2] for s_ in inv} | {s_[1] for s_ in hm}
+            if not (set(targets) & C.reach(g, [0], removed_edges=rem)):
+                excluded = True
+    if own or excluded:
+        r.ok("fast-invert|skip", "the inverted fast scanner %s" % ("consults stop_on_nonmatch where it skips the line ending a run"
+             if own else "is not admitted under stop_on_nonmatch"), fn=f)
+    else:
+        r.bad("fast-invert|skip", "match_by_line_fast_invert steps over the line that ends a run of inverted matches without "
+              "consulting stop_on_nonmatch, and nothing keeps it from running under stop_on_nonmatch: that line is the first "
+              "non-match after a match and must end the search (the slow path and a reader whose buffer ends before it stop there)",
+              fn=f, loc=skips[-1].loc, construct="fast-invert")
 
 
 def run(ctx):
@@ -279,7 +318,7 @@ def run(ctx):
                 r.bad(name, "%s does not deliver after-context, before-context and the match in that order" % name, fn=f)
 
     with ctx.rule("C03.STOPNM", "--stop-on-nonmatch: once a line matched, the first non-matching line ends the search on every path",
-                  floor=5, kind="GUARD/A3") as r:
+                  floor=6, kind="GUARD/A3") as r:
         def force_both(f, eb):
             """edges to delete so that (stop_on_nonmatch ∧ has_matched) is forced true"""
             a = cond_switches(f, lambda e: W.field_of(e, SCFG, "stop_on_nonmatch"), eb)
@@ -335,6 +374,8 @@ def run(ctx):
             else:
                 r.bad("has_matched|" + fn_.name, "%s can deliver a match without recording has_matched" % fn_.name, fn=fn_,
                       construct="has_matched")
+
+        stopnm_invert_rule(ctx, r)
 
     with ctx.rule("C03.LIVE", "no spurious stop: while every callee/sink says keep going, a routine stops only for a listed reason",
                   floor=20, kind="A3") as r:
